@@ -301,9 +301,15 @@ func TestVerifC18Percent(t *testing.T) {
 	n := verifkit.Scale(30000, 4000000)
 	for i := 0; i < n; i++ {
 		var s string
-		if rng.Bool() {
+		switch rng.Intn(4) {
+		case 0:
 			s = string(rng.Bytes(rng.Intn(40)))
-		} else {
+		case 1:
+			// text that already looks percent-encoded must survive as text
+			for k := 1 + rng.Intn(4); k > 0; k-- {
+				s += verifkit.Pick(rng, []string{"%41", "%2F", "%e4", "%%", "%4", "%zz", "100%", "a b", "é", "%25", "%0a"})
+			}
+		default:
 			s = verifkit.RandUTF8(rng, 20, true)
 		}
 		check(s)
